@@ -47,6 +47,8 @@ Verdict(r) ==
       base == [id |-> r.id, n |-> f.k, entries |-> Len(f.ents)]
   IN IF W.err # "" THEN base @@ [v |-> "walk", why |-> W.err]
      ELSE IF ~symOK THEN base @@ [v |-> "bad", why |-> "symbol table does not list each procedure once at its entry"]
+     ELSE IF \E nm \in DOMAIN r.xprog.procs : \A i \in 1..Len(r.symtab) : r.symtab[i][1] # nm
+          THEN base @@ [v |-> "bad", why |-> "a procedure of the source program is missing from the symbol table"]
      ELSE IF f.bad # "" THEN base @@ [v |-> "bad", why |-> "trace line " \o ToString(f.k) \o ": " \o f.bad]
      ELSE IF f.s.st = "run" THEN base @@ [v |-> "bad", why |-> "trace ends before the program does"]
      ELSE IF xr.st # "exit" THEN base @@ [v |-> "skip", why |-> xr.st]
